@@ -261,8 +261,10 @@ def run_case(case):
                 s.fail(f'forgery-answered:{prefix}:{klass}', f'state {prefix}: forged IKE_SA_INIT request ({klass}) was answered')
             klass = 'ikesa-level:' + klass
         else:
-            ev = s.event('inject', ep, lambda: ep.step(dgram=(ep.addrs[0], __import__('ipaddress').ip_address(peer_addr), data)),
-                         dgram=WD.Dgram(-1, __import__('ipaddress').ip_address(peer_addr), ep.addrs[0], data, s.w.clock.t, 'adv'))
+            # every other forgery comes from an address that is not the peer's (the SPIs alone select the IKE_SA)
+            src_ = peer_addr if info['n'] % 2 else ('fd00::77' if ':' in peer_addr else '10.99.99.77')
+            ev = s.event('inject', ep, lambda: ep.step(dgram=(ep.addrs[0], __import__('ipaddress').ip_address(src_), data)),
+                         dgram=WD.Dgram(-1, __import__('ipaddress').ip_address(src_), ep.addrs[0], data, s.w.clock.t, 'adv'))
             if ev.out:
                 s.fail(f'forgery-answered:{prefix}:{klass.split(":")[0]}',
                        f'state {prefix} ({"initiator" if sa.is_initiator else "responder"}): unauthentic datagram ({klass}) elicited '
